@@ -20,9 +20,23 @@ pub const HARD_CAP: u64 = 1 << 35;
 /// Where a refused request is recorded so that the parent of a worker process can see why it aborted.
 pub static REFUSE_SLOT: std::sync::atomic::AtomicPtr<u64> = std::sync::atomic::AtomicPtr::new(std::ptr::null_mut());
 
+/// Where the largest request (>= 1 MiB) of the case in progress is recorded, so that it survives the death of the
+/// worker (a request that is granted lazily and then filled can end in the watchdog instead of a measured result).
+pub static BIGREQ_SLOT: std::sync::atomic::AtomicPtr<u64> = std::sync::atomic::AtomicPtr::new(std::ptr::null_mut());
+
 #[inline]
 fn on_alloc(size: usize) -> bool {
     let s = size as u64;
+    if s >= 1 << 20 {
+        let p = BIGREQ_SLOT.load(std::sync::atomic::Ordering::Relaxed);
+        if !p.is_null() {
+            unsafe {
+                if s > std::ptr::read_volatile(p) {
+                    std::ptr::write_volatile(p, s);
+                }
+            }
+        }
+    }
     let _ = MAXREQ.try_with(|m| {
         if s > m.get() {
             m.set(s)
